@@ -8,6 +8,7 @@ import (
 	"net/http"
 	"os"
 	"path/filepath"
+	"runtime"
 	"sort"
 	"strings"
 	"sync"
@@ -56,7 +57,7 @@ func genC16B(r *h.Rng, tier string, idx int) *h.Plan {
 	sleep(1, 900)
 	n := r.Range(3, 12)
 	for i := 0; i < n; i++ {
-		switch r.Weighted([]int{8, 3, 1, 2, 1, 1}) {
+		switch r.Weighted([]int{8, 3, 1, 2, 1, 1, 2}) {
 		case 0:
 			var expr string
 			if r.Bool() {
@@ -75,6 +76,11 @@ func genC16B(r *h.Rng, tier string, idx int) *h.Plan {
 			p.Ops = append(p.Ops, h.Op{K: "reopen", B: true}) // crash: the file as it is on disk now
 		case 5:
 			p.Ops = append(p.Ops, h.Op{K: "get", Loc: r.Pick(accounts), Id: r.Pick(ids)})
+		case 6:
+			// a removal that arrives while the job is being delivered (the work
+			// loop is inside its write transaction): the job has fired for the
+			// last time
+			p.Ops = append(p.Ops, h.Op{K: "ambush", Loc: r.Pick(accounts), Id: r.Pick(ids)})
 		}
 		sleep(50, 4000)
 	}
@@ -120,11 +126,27 @@ func execC16B(t *testing.T, plan *h.Plan, trace bool) *h.Result {
 		var mu sync.Mutex
 		var regs []*croltReg
 		cur := map[string]*croltReg{}
+		ambush := map[string]bool{}        // armed: remove the job while its next delivery is in progress
+		ambushDone := make(chan error, 64) // results of those removals
+		var liveCron *crolt.Cron
 		http.DefaultClient = &http.Client{Transport: rtFunc(func(r *http.Request) (*http.Response, error) {
 			key := strings.TrimPrefix(r.URL.Path, "/")
 			mu.Lock()
 			if g := cur[key]; g != nil {
 				g.fires = append(g.fires, time.Now())
+				if ambush[key] && g.removed.IsZero() && liveCron != nil {
+					delete(ambush, key)
+					g.removed = time.Now().Add(time.Nanosecond)
+					cc, acct, id := liveCron, g.acct, g.id
+					go func() { ambushDone <- cc.Delete(acct, id) }()
+					mu.Unlock()
+					// let the removal get as far as it can while this delivery
+					// (and the work loop's transaction around it) is still open
+					for i := 0; i < 300; i++ {
+						runtime.Gosched()
+					}
+					return &http.Response{StatusCode: 200, Body: io.NopCloser(strings.NewReader("ok")), Header: http.Header{}}, nil
+				}
 			} else {
 				// a delivery for something that is not registered
 				regs = append(regs, &croltReg{acct: key, id: "?", expr: "unregistered", at: time.Now(), removed: time.Now().Add(-time.Nanosecond), fires: []time.Time{time.Now()}, oneShot: true, due: time.Now()})
@@ -149,6 +171,7 @@ func execC16B(t *testing.T, plan *h.Plan, trace bool) *h.Result {
 			return db, c
 		}
 		db, c := open()
+		liveCron = c
 		type span struct{ from, to time.Time }
 		var disturbed []span
 		checkTables := func() {
@@ -252,6 +275,12 @@ func execC16B(t *testing.T, plan *h.Plan, trace bool) *h.Result {
 				if err := c.DeleteAccount(op.Loc); err != nil {
 					fail("delete-failed", "deleteaccount", "DeleteAccount(%s) returned %v", op.Loc, err)
 				}
+			case "ambush":
+				mu.Lock()
+				if g := cur[key]; g != nil && g.removed.IsZero() {
+					ambush[key] = true
+				}
+				mu.Unlock()
 			case "get":
 				j, err := c.Get(op.Loc, op.Id)
 				mu.Lock()
@@ -278,6 +307,9 @@ func execC16B(t *testing.T, plan *h.Plan, trace bool) *h.Result {
 				}
 				file = next
 				db, c = open()
+				mu.Lock()
+				liveCron = c
+				mu.Unlock()
 				disturbed = append(disturbed, span{from, time.Now().Add(2 * poll)})
 			}
 			if trace {
